@@ -119,6 +119,8 @@ func (g *FastGoBackend) genFastRead(w *codewriter, scope *golang.Scope, s *golan
 	w.f("	}()")
 	w.f("	off += l")
 	w.f("	if err != nil { goto SkipFieldError }")
+	// gopkg's Skip can answer a length beyond the buffer (map with a fixed-size value cut short): check before b[off:]
+	w.f("	if off > len(b) { err = thrift.NewProtocolException(thrift.INVALID_DATA, \"skip: buffer too short\"); goto SkipFieldError }")
 	w.f("}") // switch fid ends
 	w.f("}") // for ends
 
